@@ -418,7 +418,7 @@ def _build(rng, tier, cls, ov=None):
     if "nA" in ov:
         nA, nB = ov["nA"], ov["nB"]
     shape = {"parallel": "plane", "tilted": "plane", "curved": "paraboloid", "wavy": "wavy"}.get(cls) or str(rng.choice(["plane", "plane", "paraboloid", "wavy"]))
-    L = np.sqrt(max(nA, nB)) * spacing
+    L = np.sqrt(nB if "nA" in ov else max(nA, nB)) * spacing
     prm = {}
     if shape == "paraboloid":
         prm["rc"] = float(max(L * rng.uniform(0.7, 4.0), 2.5 * d) * rng.choice([-1.0, 1.0]))
@@ -426,7 +426,9 @@ def _build(rng, tier, cls, ov=None):
         wl = L * rng.uniform(0.5, 2.0)
         prm = {"k": float(2 * np.pi / wl), "a": float(rng.uniform(0.02, 0.12) * wl), "p1": float(rng.uniform(0, 6.28)), "p2": float(rng.uniform(0, 6.28))}
     mode = "grid" if rng.random() < 0.6 else "uniform"
-    uA, vA = _uv(rng, nA, spacing, mode)
+    # block_counts: both sheets cover the same area (the spacing of the source sheet follows from its point count)
+    spA = spacing * np.sqrt(nB / nA) if "nA" in ov else spacing
+    uA, vA = _uv(rng, nA, spA, mode)
     uB, vB = _uv(rng, nB, spacing, mode)
     SA, NA = _surface(shape, prm, uA, vA)
     SB, NB = _surface(shape, prm, uB, vB)
@@ -539,6 +541,24 @@ def _build_dense_even(rng, tier):
                      "layout": "even grid", "far_offset": far}}
 
 
+def _reorder_best_last(rng, c):
+    """block_counts: an index order in which the source (target) with the globally shortest admissible pair - the pair every greedy
+    pairing takes first - carries the HIGHEST source (target) index: a rewrite that loses the tail of a block loses a pair that matters."""
+    T = _table(c)
+    if not T.A.any():
+        return
+    M = np.where(T.A, T.D, np.inf)
+    for axis, slots in ((1, T.src), (0, T.tgt)):
+        if rng.random() < 0.7:
+            key = M.min(axis=axis)
+            order = np.argsort(-key, kind="stable")
+            for arr in (c["P"], c["N"]):
+                arr[slots] = arr[slots[order]]
+            if axis == 1:
+                M = M[order]
+            c["meta"]["best_pair_last_" + ("source" if axis == 1 else "target")] = True
+
+
 def _roles(c):
     return (c["m1"], c["m2"]) if c["direction"] == "1to2" else (c["m2"], c["m1"])
 
@@ -629,11 +649,11 @@ def _table(c):
 
 def _block_plan(k):
     """k-th block_counts case -> (sources-sheet size, target-sheet size): one (or both) planted at 2**j-1, 2**j, 2**j+1 or total 600.
-    512 targets / 512 sources (the only multiples of 512 within 600 points) come round every 4th case."""
+    512 targets / 512 sources (the only multiples of 512 within 600 points) come round every 3rd case."""
     r = np.random.default_rng([20, 5, int(k)])
-    if k % 4 == 0:
+    if k % 3 == 0:
         v = 512
-    elif k % 4 == 2:
+    elif k % 3 == 2:
         v = int(r.choice([256, 128, 64, 511, 513]))
     else:
         v = int(r.choice(BLOCK_VALUES))
@@ -647,7 +667,7 @@ def _block_plan(k):
         other = int(r.choice(cands)) if cands else hi
     else:
         other = int(r.integers(lo, min(hi, 160) + 1))
-    return (other, v) if (k // 4 + k) % 2 == 0 else (v, other)
+    return (other, v) if (k // 3 + k) % 2 == 0 else (v, other)
 
 
 def _make(ctx, i, cls, ov=None):
@@ -663,6 +683,8 @@ def _make(ctx, i, cls, ov=None):
             _plant_near_ties(rng_b, c)
         if cls == "exact_duplicates":
             _plant_duplicates(rng_b, c)
+        if cls == "block_counts":
+            _reorder_best_last(rng_b, c)
         src, tgt = _roles(c)
         if not src.any() or not tgt.any():
             regen["no_source_or_target"] += 1
@@ -955,12 +977,12 @@ def _kernel_part(ctx, c, rng, P, N, m1, m2):
 # ---- exhaustive sub-space: cone lattice ----------------------------------------------------------
 def _block_sweep(ctx):
     """Every block-boundary count 2**k-1, 2**k, 2**k+1 (k = 4..9) as the number of TARGETS and as the number of SOURCES, both
-    directions (powers of two twice; 511/512/513 also with 600 points in total): CPU path + kernel (1 and N threads)."""
+    directions (powers of two twice, 511/513 four times, 512 six times; 511/512/513 also with 600 points in total): CPU path + kernel (1 and N threads)."""
     items = []
     for v in BLOCK_VALUES:
         for role in ("targets", "sources"):
             for direction in ("1to2", "2to1"):
-                reps = 2 if (v & (v - 1)) == 0 else 1
+                reps = 6 if v == 512 else 4 if v in (511, 513) else 2 if (v & (v - 1)) == 0 else 1
                 for rep_ in range(reps):
                     items.append((v, role, direction, rep_))
     done = 0
@@ -980,7 +1002,7 @@ def _block_sweep(ctx):
         _kernel_part(ctx, c, r, P, N, m1, m2)
         done += 1
     ctx.cur = {"index": "extra", "cls": "exhaustive"}
-    ctx.extra["block_sweep: sources / targets = 2**k-1, 2**k, 2**k+1 (k=4..9) x 2 directions (powers of two twice)"] = done
+    ctx.extra["block_sweep: sources / targets = 2**k-1, 2**k, 2**k+1 (k=4..9) x 2 directions (powers of two twice, 512 six times)"] = done
 
 
 def core_jsonable(x):
